@@ -517,7 +517,8 @@ def write_seq(code, env, S):
             fmt = m.group(5).replace('\\"', '"')
             args = split_top(m.group(6)[1:]) if m.group(6).strip() else []
             slots += fmt_operands(fmt, args, env, S)
-            lit = re.sub(r"\{\w*\}", " ", fmt).replace("[", " ").replace("]", " ").strip()
+            # "/{}" writes a name operand: the slash is the name marker, not part of the keyword
+            lit = re.sub(r"/?\{\w*\}", " ", fmt).replace("[", " ").replace("]", " ").strip()
             if lit:
                 if kw is not None:
                     raise ValueError("two keywords in one arm: %r %r" % (kw, lit))
